@@ -321,6 +321,14 @@ def normalize(prg: Iterable[AST]) -> list[AST]:
     return new_prg
 
 
+def _inlinable(var: AST, rest: AST) -> bool:
+    """X = t can only be inlined if X is a named variable and t contains no anonymous variable
+    (every inlined copy of `_` would be a different variable)"""
+    if var.name == "_":
+        return False
+    return all(v.name != "_" for v in collect_ast(rest, "Variable"))
+
+
 def _equality(lit: AST) -> Optional[tuple[AST, AST]]:
     """given a lit, if it is of a form similar to X = Y+3,
     return X and Y+3"""
@@ -332,7 +340,7 @@ def _equality(lit: AST) -> Optional[tuple[AST, AST]]:
             ):
                 var = atom.term
                 rest = atom.guards[0].term
-                if var.name == "_":
+                if not _inlinable(var, rest):
                     return None
                 return var, rest
         elif len(atom.guards) == 1 and atom.guards[0].term.ast_type == ASTType.Variable:
@@ -341,7 +349,7 @@ def _equality(lit: AST) -> Optional[tuple[AST, AST]]:
             ):
                 var = atom.guards[0].term
                 rest = atom.term
-                if var.name == "_":
+                if not _inlinable(var, rest):
                     return None
                 return var, rest
     return None
